@@ -81,7 +81,7 @@ def rendered_matrix(d, solver, method):
     """{(row, col): text} of a rendered Jacobian, plus declared CSR arrays if any"""
     if solver == "odeint":
         src = (d / "src" / "naunet_ode.cpp").read_text()
-        body = src[src.index("void Jac::operator()"):]
+        body = ol.resolve_aliases(src[src.index("void Jac::operator()"):])        # a local reference to the matrix is the matrix
         st = ol.extract_statements(body, r"j\((\d+), (\d+)\)")
         return {(int(re.match(r"j\((\d+), (\d+)\)", l).group(1)), int(re.match(r"j\((\d+), (\d+)\)", l).group(2))): r for l, r in st}, None
     f = "naunet_jac.cu" if method == "cusparse" else "naunet_jac.cpp"
@@ -165,11 +165,18 @@ def check_desc(res, model, desc, rng, tag, channel_b=False, after=None):
             if len(rhs_b) != neq:
                 res.violation("correspondence", f"{where}: {len(rhs_b)} equations rendered, {neq} expected", case)
                 continue
+            if not mat and a.ode.jac.nnz > 0:
+                # nothing the reader recognises as an entry although the generator hands non-zero entries to the template: the
+                # reader does not understand the file (the compiled routines of channel C decide what it computes)
+                res.corr_disagreements += 1
+                res.violation("correspondence", f"{where}: the reader finds no Jacobian entry in the rendered file ({a.ode.jac.nnz} expected)", case)
+                continue
             if any(r >= n or c >= n for (r, c) in mat):
                 res.violation("oracle", f"{where}: Jacobian subscript out of range", case)
                 continue
             oracle_jac(res, a, rhs_b, lambda r, c: mat.get((r, c)), where, rng, case, neq)
         ol.cleanup_scratch()
+        c01.exec_check(res, a, desc, rng, case, jac=True)
     res.case(("c02", tag, ol.nontrivial_sig(desc)),
              sample={"reactions": [f"{' + '.join(r)} -> {' + '.join(p)}" for r, p in desc["reactions"]][:4],
                      "ode_modifier": desc.get("ode_modifier"), "jac.vals[0]": (a.ode.jac.vals[0][:120] if a.ode.jac.vals else None)},
